@@ -75,6 +75,10 @@ fn guarded<T: Send + 'static>(f: impl FnOnce() -> T + Send + 'static) -> Result<
     }
 }
 
+/// largest node length in an array tree: trees with absurd lengths (possible for valid Null / zero-width layouts) are
+/// not dumped, the extracted validator works with unary lengths
+fn max_len(d: &arrow_data::ArrayData) -> usize { d.child_data().iter().map(max_len).fold(d.len().saturating_add(d.offset()), usize::max) }
+
 fn outcome_args(code: i64, ncols: usize, loc: &str) -> Args { vec![g(code), g(ncols as i64), gbytes(loc.as_bytes())] }
 
 /// In-process execution of one op (child side, or parent when C08_INPROC is set for debugging).
@@ -85,7 +89,7 @@ fn run_local(op: &str, a: &Args) -> Option<Args> {
             let want = if op == "c08.column" { Some(to_usize(&a[3])) } else { None };
             let r = guarded(move || read_input(kind, &bytes, &aux).map(|cs| {
                 // dumps are produced inside the guard: accessing a malformed array may itself panic
-                match want { None => (cs.len(), None), Some(i) => (cs.len(), cs.get(i).and_then(|c| c01::dump(c.as_ref()))) }
+                match want { None => (cs.len(), None), Some(i) => (cs.len(), cs.get(i).filter(|c| max_len(&c.to_data()) <= 1_000_000).and_then(|c| c01::dump(c.as_ref()))) }
             }));
             match (r, want) {
                 (Ok(Ok((n, _))), None) => outcome_args(OK, n, ""),
